@@ -47,6 +47,7 @@ func (g grant) String() string {
 }
 
 type world struct {
+	bad []string // violations noticed while the scenario runs
 	st     *fakeetcd.Store
 	srvs   map[int]*srvh.Srv
 	conns  []*grpc.ClientConn
@@ -93,6 +94,11 @@ func (w *world) conn(target *srvh.Srv) *grpc.ClientConn {
 func newWorld(zones map[int]string) *world {
 	vclock.Enable(vclock.Epoch)
 	ctx, cancel := context.WithCancel(context.Background())
+	zc := map[int]string{}
+	for k, v := range zones {
+		zc[k] = v
+	}
+	zones = zc
 	w := &world{st: fakeetcd.New(), srvs: map[int]*srvh.Srv{}, zones: zones, ctx: ctx, cancel: cancel, leader: 1, allocLeader: map[string]int{}}
 	srvh.SeedClusterID(w.st)
 	var ids []int
@@ -251,6 +257,9 @@ func (w *world) close() {
 
 func (w *world) check(r *sched.Run) (string, *explore.Violation) {
 	defer w.close()
+	if len(w.bad) > 0 {
+		return "", &explore.Violation{Key: "suffix-changed", Msg: strings.Join(w.bad, "; ")}
+	}
 	var ok []grant
 	sfx := w.suffixes()
 	maxSuffix := 0
@@ -276,18 +285,15 @@ func (w *world) check(r *sched.Run) (string, *explore.Violation) {
 		}
 		ok = append(ok, g)
 	}
-	// suffix width large enough for every suffix in use by an allocator that has served
-	served := map[string]bool{}
+	// suffix width large enough for every suffix in use: every dc-location whose allocator
+	// had served a timestamp before this request began
 	for _, g := range ok {
-		served[g.dc] = true
-	}
-	for _, g := range ok {
-		for dc := range served {
-			if dc == tso.GlobalDCLocation {
+		for _, h := range ok {
+			if h.dc == tso.GlobalDCLocation || h.ret >= g.inv {
 				continue
 			}
-			if need := bits.Len(uint(sfx[dc])); int(g.bits) < need {
-				return "", &explore.Violation{Key: "suffix-bits-too-small", Msg: fmt.Sprintf("%s reports %d suffix bits but suffix %d of %s needs %d", g, g.bits, sfx[dc], dc, need)}
+			if need := bits.Len(uint(sfx[h.dc])); int(g.bits) < need {
+				return "", &explore.Violation{Key: "suffix-bits-too-small", Msg: fmt.Sprintf("%s reports %d suffix bits but suffix %d of %s, which had served %s before, needs %d", g, g.bits, sfx[h.dc], h.dc, h, need)}
 			}
 		}
 	}
@@ -424,6 +430,58 @@ func main() {
 		}
 	}
 	l = append(l, scenario(scen{name: "2dc/updates", zones: two, alloc: map[string]int{"dc1": 1, "dc2": 2}, pre: 4, tiers: "quick", build: withUpdates}))
+	// the PD leader's clock is ahead of dc2's allocator leader: a global timestamp written to
+	// dc2 as MaxTS is ahead of dc2's clock while dc2's periodic update is in flight
+	skewed := func(w *world) ([]string, []func()) {
+		vclock.SetOffset(1, 200*time.Millisecond)
+		return []string{"updater", "global", "local2"}, []func(){
+			func() { w.update(1, 50*time.Millisecond); w.update(2, 50*time.Millisecond) },
+			func() { w.request(1, G, 1) },
+			func() { w.request(2, "dc2", 1); w.request(2, "dc2", 1) },
+		}
+	}
+	l = append(l, scenario(scen{name: "2dc/updates/clock-skew", zones: two, alloc: map[string]int{"dc1": 1, "dc2": 2}, pre: 6, tiers: "quick", build: skewed}))
+	l = append(l, scenario(scen{name: "2dc/updates/clock-skew@8", zones: two, alloc: map[string]int{"dc1": 1, "dc2": 2}, pre: 8, tiers: "thorough", build: skewed}))
+	// PD leadership moves to a member whose view of the dc-locations is stale (it has not run
+	// its checker since dc4 joined), then another dc-location joins: suffixes stay distinct
+	// and are kept
+	leaderMove := func(w *world) ([]string, []func()) {
+		return []string{"ops", "global"}, []func(){
+			func() {
+				w.zones[3] = "dc4"
+				w.addServer(3)
+				w.srvs[3].VerifMember().VerifSetLeader(w.srvs[1].VerifMember().Member())
+				sched.SetMember(1)
+				w.srvs[1].GetTSOAllocatorManager().ClusterDCLocationChecker() // the leader gives dc4 its suffix
+				before := w.suffixes()
+				w.srvs[1].GetTSOAllocatorManager().ResetAllocatorGroup(G)
+				w.srvs[1].VerifMember().ResetLeader()
+				sched.SetMember(2)
+				if err := w.srvs[2].VerifBecomeTSOLeader(); err != nil {
+					return
+				}
+				w.leader = 2
+				w.zones[4] = "dc3"
+				w.addServer(4)
+				w.afterLeaderChange()
+				for dc, v := range before {
+					if now := w.suffixes()[dc]; now != v {
+						w.bad = append(w.bad, fmt.Sprintf("dc-location %s had suffix %d and now has %d", dc, v, now))
+					}
+				}
+				if err := w.electAllocator(4, "dc3"); err == nil {
+					w.request(4, "dc3", 1)
+				}
+				if err := w.electAllocator(3, "dc4"); err == nil {
+					w.request(3, "dc4", 1)
+				}
+				w.request(2, G, 1)
+			},
+			func() { w.request(1, G, 1); w.request(2, "dc2", 1) },
+		}
+	}
+	l = append(l, scenario(scen{name: "2dc/pd-leader-move+2joins", zones: two, alloc: map[string]int{"dc1": 1, "dc2": 2}, pre: 1, tiers: "quick", build: leaderMove}))
+	l = append(l, scenario(scen{name: "2dc/pd-leader-move+2joins@3", zones: two, alloc: map[string]int{"dc1": 1, "dc2": 2}, pre: 3, tiers: "thorough", build: leaderMove}))
 	// a datacenter whose allocator leader is elected while traffic is running (joins later)
 	joinLater := func(w *world) ([]string, []func()) {
 		return []string{"local1", "global", "join"}, []func(){
